@@ -369,8 +369,13 @@ def evaluate(run, want=None):
                 if b.get("window_size") != W or b.get("num_data_series") != N:
                     I.v("C12", "round %d task %d: window size / sensor count (%r,%r) != (%d,%d)" % (r, k, b.get("window_size"), b.get("num_data_series"), W, N))
                 I.c("task_arguments_checked")
-        elif r == 0:
-            I.v("C12", "expected %d optimisation tasks per round, recorded %d in total for %d rounds" % (K, len(run.tasks), R))
+        elif len(run.tasks) == 0:
+            I.c("tasks_not_observed")        # the pool is not driven through apply_async: nothing to decide from
+        elif r == 0 or len(run.tasks) < (r + 1) * K:
+            msg = "round %d completed its optimisation phase but only %d tasks were submitted in %d rounds (K=%d): a cluster was not re-optimised" % (
+                r, len(run.tasks), r + 1, K)
+            I.v("C12", msg)
+            I.v("C09", msg)
         # MRFs leaving the optimisation phase
         for k in range(K):
             arrs = op["out"]["arrays"][k]
